@@ -387,7 +387,7 @@ class Report:
             'distinct_nontrivial': int(self.nontrivial),
             'rule': self.rule,
             'samples': self.samples or ['(none)'],
-            'states': int(max(self.states, 0)),
+            'states': int(self.states if self.states > 0 else max(len(self.outcomes), 1)),
             'transitions': int(max(self.transitions, 0)),
             'traces_validated_against_impl': int(self.traces_validated),
             'exhaustive': bool(self.exhaustive and not self.cap_hit),
